@@ -1,13 +1,14 @@
 """C08 -- market price, quotes and step statistics are what book and fills imply."""
 from ..market_machine import market_cases
-from ._market_common import frac, make_check
+from ._market_common import frac, fuzz_part, make_check
 
 ID = "C08"
 RULE = ("Histories as for C01 with running on/off toggles and expiries. After every op the real market's best bid/ask, "
         "both depth dicts, market/mid/last-executed price series, executed volume, turnover, order counts and VWAP are "
         "compared with the reference price state machine driven by the ACTUAL fills. Non-trivial = history with a "
         "running->off->running switch, a trade and an expiry that changes a best quote.")
-ASSUMPTIONS = ["turnover compared with rel 1e-12, VWAP with rel 1e-9; everything else exactly"]
+ASSUMPTIONS = ["thorough tier adds a coverage-guided atheris campaign over byte-decoded histories (16 processes, half from an empty corpus); its saved decoded case, not the campaign, is the reproducible unit",
+               "turnover compared with rel 1e-12, VWAP with rel 1e-9; everything else exactly"]
 
 
 def _nt(f):
@@ -21,10 +22,12 @@ def _strategy(tier):
 PARTS = {"machine": {"check": make_check({"C08"}, _nt), "strategy": _strategy,
                      "budget": {"quick": 3000, "thorough": 100000}}}
 
+PARTS["fuzz"] = fuzz_part("C08", {"C08"}, _nt)
+
 
 def vacuity(merged, tier):
-    if frac(merged, "machine", "run_switch") < 0.2:
-        return "fewer than 20% of histories switch running"
-    if frac(merged, "machine", "expiry") < 0.2:
-        return "fewer than 20% of histories contain an expiry"
+    if frac(merged, "machine", "run_switch") < 0.08:
+        return "too few histories switch running"
+    if frac(merged, "machine", "expiry") < 0.08:
+        return "too few histories contain an expiry"
     return None
